@@ -18,7 +18,12 @@ EXPLANATION = (
     "(all 44 IR types, 2 services, 1 error x 2 configs are present in the compiled facts); (R3.4) every prelude-name helper (Box, Option, "
     "Vec, String, Into, ...) is keyed on the type whose module the code is emitted into — the same value the relative type paths "
     "are computed from; (R3.5) the type renderer's ordered-key flag (f64 -> DoubleKey inside set items / map keys) is passed on at "
-    "every nested-type descent (known finding: the map-value descent resets it).")
+    "every nested-type descent (known finding: the map-value descent resets it); (R3.6) layering: outside conjure_codegen::context no "
+    "generator module branches on the syntactic kind of an IR Type taken straight from the IR (alias / external resolution lives in "
+    "Context's predicates, so client, server and type renderers agree for alias-of-X definitions); (R3.7) in the endpoint macro the "
+    "safe-params variable is declared under the same per-argument predicate (ArgType::safe) under which its uses are emitted; (R3.8) "
+    "the shared-prefix length in Context's relative-path arithmetic is counted through prefix-closed adaptors only (take_while / "
+    "map_while), never filter-like ones. The rest of that arithmetic stays undecided.")
 
 EXCLUDED = {"$crate": "not a Conjure-reachable spelling", "{{root}}": "not a spelling", "_": "not a name the snake-case conversion can produce alone... (it can: see below)",
             "Self": "handled by the camel-case escaper"}
@@ -192,6 +197,97 @@ def run(ctx):
                       f"{b.name}: the nested type of the `{arm}` arm is rendered through {how}: inside a set item or map key an f64 below it is emitted as plain f64, which is not Ord, so the generated BTreeSet/BTreeMap does not compile "
                       "(e.g. set<map<string, double>>)", instance=f"{b.name}: `{arm}` descends with {how}")
         ctx.floor("R3.5", "nested-type descents of the type renderer", n, 6)
+    # ---------------- R3.6 layering: only Context resolves aliases / external fallbacks
+    # the generator modules decide by Context's predicates (is_optional, is_iterable, is_binary, ...), which look through
+    # aliases and external fallbacks; a module that branches on the syntactic kind of an IR `Type` itself disagrees with its
+    # siblings for alias-of-X definitions (client vs server decoders, return type vs serializer: non-compiling or mismatched code)
+    TYPE = "conjure_codegen::types::type_::Type"
+    nsw = 0
+    for b in c.bodies:
+        mod = b.id.split("::")[1] if "::" in b.id else ""
+        if mod in ("context", "types") or b.id.startswith("conjure_codegen::example_types"):
+            continue
+        for bb, j, s_ in b.stmts():
+            if "discr" not in s_["r"]:
+                continue
+            if ty_adt(dt.place_ty(b, F, s_["r"]["discr"]) or {}) != TYPE:
+                continue
+            nsw += 1
+            roots, calls = dt.transforming_calls(b, {"cp": s_["r"]["discr"]})
+            via_ctx = any(t["call"]["def"].startswith("conjure_codegen::context::Context::") for t in calls)
+            ctx.check(via_ctx and not roots, "R3.6", b.loc(s_["ln"]), f"{b.path.split('::{closure')[0]}|syntactic-type-switch",
+                      f"{b.path}: branches on the syntactic kind of an IR Type that does not come from a Context query (e.g. dealiased_type): aliases and external types of that kind take the other branch, so this site and its siblings (client/server, return type/serializer) disagree for alias-of-optional / alias-of-collection definitions",
+                      instance=f"{b.path}: Type kind taken from a Context query")
+    ctx.ok("R3.6", "conjure_codegen", f"{nsw} branches on the kind of an IR Type outside conjure_codegen::context, none on a raw IR value", nontrivial=False)
+    # ---------------- R3.7 endpoint macro: a binding and its uses are emitted under the same predicate
+    # (`let __safe_params = ..` under has_safe_params(endpoint), `__safe_params.insert(..)` under arg.safe(): if the two
+    # predicates can disagree the expansion refers to an undeclared variable and the generated server traits do not compile)
+    tm = F.tmpl()
+    cmac = F.crate("conjure_macros")
+    if tm is not None:
+        import re as _re
+
+        def reach(names, depth=0, seen=None):
+            seen = seen if seen is not None else set()
+            out = set()
+            for nme in names:
+                for mb in [x for x in cmac.bodies if x.name == nme and x.kind in ("fn", "assoc_fn")]:
+                    if mb.id in seen:
+                        continue
+                    seen.add(mb.id)
+                    out.add(mb.path)
+                    callees = {t["call"]["name"] for x in [mb] + cmac.closures_of(mb) for _, t in x.calls() if t["call"].get("local")}
+                    if depth < 3:
+                        out |= reach(callees, depth + 1, seen)
+            return out
+        bind, uses = [], []
+        for fn in tm["functions"]:
+            if not fn["file"].endswith("conjure-macros/src/endpoints.rs"):
+                continue
+            for q in fn["quotes"]:
+                txt = q["text"].replace(" ", "")
+                preds = reach(set(_re.findall(r"(\w+)\s*\(", " ".join(q["conds"]))))
+                if _re.search(r"let(mut)?#safe_params=", txt) or "SafeParams::new" in txt:
+                    bind.append((fn, q, preds))
+                elif "#safe_params." in txt:
+                    uses.append((fn, q, preds))
+        ctx.check(len(bind) >= 1 and len(uses) >= 1, "R3.7", "conjure-macros/src/endpoints.rs", "safe-params|templates", f"expected the SafeParams binding template and its use template, found {len(bind)} / {len(uses)}", nontrivial=False)
+        for fn, q, preds in uses:
+            for bfn, bq, bpreds in bind:
+                common = {x for x in preds & bpreds if x.endswith("::safe")}
+                ctx.check(bool(common), "R3.7", f"{bfn['file'].split('/repo/')[-1]}:{bq['line']}", f"{bfn['name']}|{fn['name']}|binding-and-use-same-predicate",
+                          f"macro: `{fn['name']}` emits a use of the safe-params variable under {q['conds']} (reaching {sorted(x.split('::')[-1] for x in preds)}), but `{bfn['name']}` declares the variable under {bq['conds']} (reaching {sorted(x.split('::')[-1] for x in bpreds)}): they must be decided by the same per-argument predicate, otherwise an endpoint for which only the use is emitted expands to code that does not compile",
+                          instance=f"binding in {bfn['name']} and use in {fn['name']} both decided by ArgType::safe")
+    # ---------------- R3.8 a common-prefix length is not the number of matching positions
+    # relative `super::` paths skip the *common prefix* of two module paths; a count taken through a non-prefix adaptor
+    # (filter, skip_while, rev, step_by ...) and then used as a slice start / hop count miscounts as soon as the paths
+    # coincide again after their first difference (sibling packages with a common leaf)
+    NONPREFIX = {"filter", "filter_map", "skip_while", "skip", "step_by", "rev", "flat_map", "chain"}
+    ncnt = 0
+    for b in c.bodies:
+        if not b.id.startswith("conjure_codegen::context::"):
+            continue
+        for bb, t in b.calls():
+            if t["call"]["def"] != "core::iter::traits::iterator::Iterator::count":
+                continue
+            # only counts whose receiver pairs up two sequences
+            chain, cur, seen_ = [], t["args"][0], 0
+            while seen_ < 12:
+                seen_ += 1
+                r = dt.resolve_copy(b, cur)
+                if r[0] == "def" and r[1][1] == "T" and r[1][2]["call"]["def"].startswith("core::iter::traits::iterator::Iterator::"):
+                    chain.append(r[1][2]["call"]["name"])
+                    cur = r[1][2]["args"][0]
+                else:
+                    break
+            if "zip" not in chain:
+                continue
+            ncnt += 1
+            bad = [x for x in chain if x in NONPREFIX]
+            ctx.check(not bad, "R3.8", b.loc(t["ln"]), f"{b.name}|common-prefix-count",
+                      f"{b.name}: the number of leading components two module paths share is computed as zip(..).{'.'.join(reversed(chain[:-1] if chain and chain[-1] == 'zip' else chain))}.count(): `{bad[0] if bad else ''}` also counts positions that match again after the first difference, so relative paths between sibling packages with a common leaf (a.x.api -> a.y.api) get too few `super::` hops and the output does not compile",
+                      instance=f"{b.name}: zip.{'.'.join(x for x in reversed(chain) if x != 'zip')}.count() is prefix-closed")
+    ctx.ok("R3.8", "conjure_codegen::context", f"{ncnt} pairwise counts in Context's path arithmetic examined (a rewrite without zip(..).count() is not judged by this rule)", nontrivial=False)
     # ---------------- R3.3 instance compiled
     ct = F.crate("conjure_test")
     ir = instance.IR()
